@@ -1,7 +1,9 @@
 (** C12 -- Instance transforms compose like the geometric operations they name.
-    Property theorems only; proofs are in Geom/Transform_proofs.v.
+    Property theorems only; proofs are in Geom/Transform_proofs.v and (float level, part (8))
+    Geom/TransformFloat_proofs.v.
     Model: Geom/Transform.v (layout21raw/src/geom.rs [Transform], [Point::transform],
-    layout21raw/src/data.rs [Layout::flatten]); specification: Geom/TransformSpec.v.
+    layout21raw/src/data.rs [Layout::flatten]); specification: Geom/TransformSpec.v;
+    vocabulary of the float-level statements: Geom/TransformFloat.v.
 
     Ring level: matrix entries in ANY commutative ring [K] (operations [R], laws [ring_theory]),
     the angle enters as ANY pair (c, s) -- so these theorems hold for every angle and do not
@@ -9,6 +11,7 @@
     is the function as found. *)
 From Coq Require Import ZArith Bool List Ring_theory.
 From L21 Require Import Base.F64 Gen.LibmGen Geom.Transform Geom.TransformSpec Geom.Transform_proofs.
+From L21 Require Import Geom.TransformFloat Geom.TransformFloat_proofs.
 Import ListNotations.
 Local Open Scope Z_scope.
 
@@ -156,6 +159,122 @@ Example C12_nonvacuous :
   = Ok [(7, Rect (0, 0) (3, 1)); (8, Polygon [(11, 23); (12, 20)]); (9, Path [(11, 20)] 5)].
 Proof. split; [exact ZRth|]. vm_compute. repeat split; reflexivity. Qed.
 
+(** (8) Float level: NO ROUNDING DRIFT AT RIGHT ANGLES, up to an explicit depth.
+    The binary64 arithmetic of the implementation (every `*` and `+` of `cascade` and of
+    `Point::transform` rounded to nearest even, `isize as f64`, `round() as isize`), with the sine and
+    cosine that libm actually returns (Gen/LibmGen.v, regenerated from the implementation on every
+    run: e.g. cos 90 = 6.1e-17, sin 360 = -2.4e-16, so the float matrices are NOT the exact ones).
+
+    For every chain of at most [D] nested placements (outermost first), each with location within
+    [L], any reflect flag and an angle that is absent or in the table (0, +-90, +-180, +-270, 360
+    degrees), and every integer point within [X]: the transform that [flatten_helper] accumulates
+    along the chain ([chain_f identity_f chain], the float `cascade` of the `from_instance` matrices),
+    applied by [Point::transform] ([apply_f]), is inside the float model (no overflow) and returns
+    EXACTLY the image under the specification's composition of the placements ([path_image]:
+    innermost placement first, each one reflect / quarter turns / translate) -- provided
+    [drift_budget D L X]: 10 D^2 L + D L + 16 X D + 4 X + 4 <= 2^52.
+    No separate hypothesis on the intermediate offsets is needed: they are within D * L < 2^52.
+    Proof: an invariant along the chain (matrix entries within d * 2^-50 of the exact entries in
+    {0, 1, -1}, offsets within 5/4 d^2 L 2^-50 of the exact integer offsets), each float operation
+    within half an ulp, and |error| < 1/2 before the final `round`. Error analysis over Q. *)
+Theorem C12_right_angle_chain_no_drift :
+  forall (D L X : Z) (chain : list fplacement) (x y : Z),
+    drift_budget D L X ->
+    Z.of_nat (length chain) <= D -> Forall (placement_ok L) chain ->
+    Z.abs x <= X -> Z.abs y <= X ->
+    exists sp, spec_path_of chain = Some sp /\ chain_image_f chain (x, y) = Some (path_image sp (x, y)).
+Proof. exact chain_image_exact. Qed.
+
+(** ... in particular: depth <= 20 with locations up to 2^40, and depth <= 1024 with locations up
+    to 2^28 (about 2.7e8 database units), points up to 2^31 in both cases. *)
+Theorem C12_right_angle_chain_no_drift_depth20 :
+  forall (chain : list fplacement) (x y : Z),
+    (length chain <= 20)%nat -> Forall (placement_ok (2 ^ 40)) chain ->
+    Z.abs x <= 2 ^ 31 -> Z.abs y <= 2 ^ 31 ->
+    exists sp, spec_path_of chain = Some sp /\ chain_image_f chain (x, y) = Some (path_image sp (x, y)).
+Proof. exact chain_image_exact_20. Qed.
+
+Theorem C12_right_angle_chain_no_drift_depth1024 :
+  forall (chain : list fplacement) (x y : Z),
+    (length chain <= 1024)%nat -> Forall (placement_ok (2 ^ 28)) chain ->
+    Z.abs x <= 2 ^ 31 -> Z.abs y <= 2 ^ 31 ->
+    exists sp, spec_path_of chain = Some sp /\ chain_image_f chain (x, y) = Some (path_image sp (x, y)).
+Proof. exact chain_image_exact_1024. Qed.
+
+(** The exact image above is also the ring-level model's (K = Z, exact cosine and sine): the float
+    result equals [apply_Z] of the exact cascade of the chain. *)
+Theorem C12_right_angle_chain_float_is_ring :
+  forall (D L X : Z) (chain : list fplacement) (x y : Z),
+    drift_budget D L X ->
+    Z.of_nat (length chain) <= D -> Forall (placement_ok L) chain ->
+    Z.abs x <= X -> Z.abs y <= X ->
+    exists zc t, zchain_of chain = Some zc /\ chain_f identity_f chain = Some t /\
+                 apply_f t (x, y) = Some (apply_Z (chain_Z identity_Z zc) (x, y)).
+Proof. exact chain_exact_Z. Qed.
+
+(** A bound on the depth cannot be dropped: the error of the matrix entries grows linearly with
+    the depth and multiplies the next location, so the offset error grows quadratically. With the
+    sine of 360 degrees that libm returns on the machine where this was found (-2.4e-16, the bit
+    pattern tested by [table360_as_seen]), 62 nested placements at (0, 2^40), each rotated by 360
+    degrees and all within the hypotheses of the theorem except for the depth, send the origin to
+    x = 1 instead of 0 (61 of them do not; the theorem covers 20; replayed on the implementation:
+    `Point::transform` under the cascaded transform returns (1, 68169720922112)). *)
+Theorem C12_right_angle_drift_at_depth_62 :
+  table360_as_seen = true ->
+  Forall (placement_ok (2 ^ 40)) (drift_chain 62) /\
+  exists sp, spec_path_of (drift_chain 62) = Some sp /\ path_image sp (0, 0) = (0, 62 * 2 ^ 40) /\
+             chain_image_f (drift_chain 61) (0, 0) = Some (0, 61 * 2 ^ 40) /\
+             chain_image_f (drift_chain 62) (0, 0) = Some (1, 62 * 2 ^ 40).
+Proof. exact drift_at_depth_62. Qed.
+
+(** Non-vacuity of (8): a chain of depth 3 with locations and a point near 2^31, reflected twice,
+    angles 90, -270, 180. Its float transform is inexact (on this machine a01 = -4967757600021511 *
+    2^-105 where the exact entry is 0, and b0 = -4503599635759105 * 2^-21 is not an integer), the
+    image is exact. *)
+Example C12_right_angle_chain_nonvacuous :
+  let chain := [(2 ^ 31 - 5, - 2 ^ 31 + 7, true, Some 90); (123456789, - 2 ^ 31, false, Some (-270));
+                (- 2 ^ 31 + 1, 2 ^ 31 - 1, true, Some 180)] in
+  let sp := [(2147483643, -2147483641, true, 1%nat); (123456789, -2147483648, false, 1%nat);
+             (-2147483647, 2147483647, true, 2%nat)] in
+  drift_budget 20 (2 ^ 40) (2 ^ 31) /\ (length chain <= 20)%nat /\ Forall (placement_ok (2 ^ 40)) chain /\
+  spec_path_of chain = Some sp /\
+  path_image sp (2 ^ 31 - 1, - 2 ^ 31) = (-4294967299, -2024026851) /\
+  chain_image_f chain (2 ^ 31 - 1, - 2 ^ 31) = Some (-4294967299, -2024026851).
+Proof. exact chain_nonvacuous. Qed.
+
+(** (9) The same for the whole of [Layout::flatten] at the float level ([flatten_f]: the
+    hierarchy walked by `flatten_helper` with the float `cascade`, `from_instance` and
+    `Point::transform`): for a hierarchy with at most [D] levels of instances below the top cell,
+    every placement within [L] and at a table angle, every point of every shape within [X]
+    ([layout_ok]), and [drift_budget D L X]: the float-level flatten is inside the float model and
+    returns exactly what the ring-level flatten (K = Z, exact cosine and sine) returns, hence
+    ((5) above) every element moved by the exact composition of the placements on its path; it
+    panics exactly when some instantiated cell has no layout. *)
+Theorem C12_right_angle_flatten_no_drift :
+  forall (D : nat) (L X : Z) (l : layout fplacement (Z * Z)),
+    drift_budget (Z.of_nat D) L X -> layout_ok L X l D ->
+    exists zl, zlayout_of l = Some zl /\ flatten_f l = flatten_K ZR zl /\
+      flatten_f l =
+      match paths zl with
+      | Some ps => Ok (map (fun pe => elem_map (path_map ZR (fst pe)) (snd pe)) ps)
+      | None => Panic
+      end.
+Proof. exact flatten_f_no_drift. Qed.
+
+Example C12_right_angle_flatten_nonvacuous :
+  let l := Layout [(7, Rect (0, 0) (3, 1))]
+             [((2 ^ 31 - 1, - 2 ^ 31, true, Some 90),
+               Some (Layout [(8, Polygon [(3, 1); (0, 2 ^ 31)])]
+                            [((1, 1, false, Some (-180)), Some (Layout [(9, Path [(1, 0)] 5)] []));
+                             ((- 2 ^ 30, 5, true, None),
+                              Some (Layout [(10, Rect (-7, 2) (2 ^ 20, - 2 ^ 20))] []))]))] in
+  drift_budget (Z.of_nat 2) (2 ^ 40) (2 ^ 31) /\ layout_ok (2 ^ 40) (2 ^ 31) l 2 /\
+  flatten_f l = Ok [(7, Rect (0, 0) (3, 1));
+                    (8, Polygon [(2147483648, -2147483645); (4294967295, -2147483648)]);
+                    (9, Path [(2147483648, -2147483648)] 5);
+                    (10, Rect (2147483650, -3221225479) (2148532228, -3220176896))].
+Proof. exact flatten_nonvacuous. Qed.
+
 Print Assumptions C12_cascade_apply.
 Print Assumptions C12_cascade_assoc.
 Print Assumptions C12_elementary_maps.
@@ -170,3 +289,9 @@ Print Assumptions C12_reflect_mirrors.
 Print Assumptions C12_det_cascade.
 Print Assumptions C12_area_scaled_by_det.
 Print Assumptions C12_right_angle_is_spec.
+Print Assumptions C12_right_angle_chain_no_drift.
+Print Assumptions C12_right_angle_chain_no_drift_depth20.
+Print Assumptions C12_right_angle_chain_no_drift_depth1024.
+Print Assumptions C12_right_angle_chain_float_is_ring.
+Print Assumptions C12_right_angle_drift_at_depth_62.
+Print Assumptions C12_right_angle_flatten_no_drift.
